@@ -56,23 +56,23 @@ Proof.
   destruct Ho; subst o; reflexivity.
 Qed.
 
-Definition cov (f other : aforest) (rows : list string) : Prop :=
-  forall k, In k f -> In (arow k) rows \/ (mi_dlogic (ami k) = DRewrite /\ In (arow k) (arows other)).
+Definition cov (f : aforest) (unch : bool) (rows : list string) : Prop :=
+  forall k, In k f -> In (arow k) rows \/ (mi_dlogic (ami k) = DRewrite /\ unch = true).
 
-Lemma covered_cov f other rows : covered f other rows = true <-> cov f other rows.
+Lemma covered_cov f unch rows : covered f unch rows = true <-> cov f unch rows.
 Proof.
   unfold covered, cov. rewrite forallb_forall. split; intros H k Hk; specialize (H k Hk).
   - apply orb_true_iff in H as [H|H].
     + left. apply existsb_eqb_In. exact H.
-    + right. apply andb_true_iff in H as [H1 H2]. split; [apply dlogic_eqb_eq; exact H1 | apply amem_In; exact H2].
+    + right. apply andb_true_iff in H as [H1 H2]. split; [apply dlogic_eqb_eq; exact H1 | exact H2].
   - apply orb_true_iff. destruct H as [H|[H1 H2]].
     + left. apply existsb_eqb_In. exact H.
-    + right. apply andb_true_iff. split; [apply dlogic_eqb_eq; exact H1 | apply amem_In; exact H2].
+    + right. apply andb_true_iff. split; [apply dlogic_eqb_eq; exact H1 | exact H2].
 Qed.
 
 Lemma lossless_iff ao an d :
   lossless ao an d = true <->
-  NoDup (map d_row d) /\ cov ao an (map d_row d) /\ cov an ao (map d_row d) /\
+  NoDup (map d_row d) /\ cov ao (rw_unchanged ao an) (map d_row d) /\ cov an (rw_unchanged ao an) (map d_row d) /\
   (forall x, In x d -> lossless_n ao an x = true).
 Proof.
   unfold lossless. rewrite !andb_true_iff, nodup_rows_NoDup, !covered_cov, forallb_forall. tauto.
@@ -362,6 +362,256 @@ Proof.
   rewrite aff_to_moved_op. rewrite (HB _ _ _ Hy). reflexivity.
 Qed.
 
+(* ---------- "nothing changed at any depth" (same_f) and the all-AFFECTED test of rewrite_diff ---------- *)
+Lemma same_t_f s s' : same_t s s' = same_f (akids s) (akids s').
+Proof. destruct s, s'. reflexivity. Qed.
+
+Lemma same_f_unfold a b :
+  same_f a b =
+  list_str_eqb (ordered_rows_a a) (ordered_rows_a b) && list_str_eqb (rewrite_rows_a a) (rewrite_rows_a b) &&
+  forallb (fun k => amem (arow k) a) b &&
+  forallb (fun k => match alookup (arow k) b with
+                    | Some (m', s') => mi_eqb (ami k) m' && same_f (akids (asub k)) (akids s')
+                    | None => false
+                    end) a.
+Proof.
+  unfold same_f at 1. cbn [same_t akids]. f_equal.
+  induction a as [|[[r m] s] l IH]; [reflexivity|].
+  cbn [forallb]. unfold arow at 1, ami at 1, asub at 1. cbn [fst snd].
+  rewrite <- IH. destruct (alookup r b) as [[m' s']|]; [|reflexivity].
+  rewrite same_t_f. reflexivity.
+Qed.
+
+Lemma same_f_intro a b : NoDup (arows b) ->
+  ordered_rows_a a = ordered_rows_a b -> rewrite_rows_a a = rewrite_rows_a b ->
+  (forall k, In k b -> In (arow k) (arows a)) ->
+  (forall r m s, In (r, m, s) a -> exists s', In (r, m, s') b /\ same_f (akids s) (akids s') = true) ->
+  same_f a b = true.
+Proof.
+  intros Hnd H1 H2 H3 H4. rewrite same_f_unfold, H1, H2, !list_str_eqb_refl. cbn [andb].
+  apply andb_true_iff. split.
+  - apply forallb_forall. intros k Hk. apply amem_In. apply H3. exact Hk.
+  - apply forallb_forall. intros [[r m] s] Hk. unfold arow, ami, asub. cbn [fst snd].
+    destruct (H4 r m s Hk) as (s' & Hin & Hs).
+    rewrite (alookup_In b r m s' Hnd Hin), mi_eqb_refl, Hs. reflexivity.
+Qed.
+
+Lemma aff_to_moved_all_affected d : all_affected (aff_to_moved d) = true -> d = [].
+Proof.
+  destruct d as [|[o r m k] d]; [reflexivity|]. cbn.
+  destruct (op_eqb o Affected) eqn:E; cbn; [discriminate|]. rewrite E. discriminate.
+Qed.
+
+Lemma scan_In_conv og pop inrw mta : forall l i dis k, In k l ->
+  exists d, In d (scan_new og pop inrw mta (cks l) i dis) /\ scan_rel og pop inrw k d.
+Proof.
+  induction l as [|[[r m] c] l IH]; intros i dis k Hk; [destruct Hk|].
+  change (cks ((r, m, c) :: l)) with ((r, m, diff_t c) :: cks l). cbn [scan_new].
+  destruct Hk as [E|Hk].
+  - subst k. unfold scan_rel, arow, ami, asub. cbn [fst snd].
+    destruct (afind r og 0) as [[j so]|] eqn:Ef.
+    + destruct (afind_Some _ _ _ _ _ Ef) as (mo & El). rewrite El.
+      destruct (dis || negb (Nat.eqb i j)).
+      * eexists. split; [left; reflexivity|]. exists (if mta then pop else Moved).
+        split; [destruct mta; auto | reflexivity].
+      * eexists. split; [left; reflexivity|]. exists pop. split; [auto | reflexivity].
+    + apply afind_None in Ef. rewrite Ef. eexists. split; [left; reflexivity | reflexivity].
+  - destruct (afind r og 0) as [[j so]|]; [destruct (dis || negb (Nat.eqb i j))|].
+    + destruct (IH (S i) true k Hk) as (d & Hd & Hr). exists d. split; [right; exact Hd | exact Hr].
+    + destruct (IH (S i) false k Hk) as (d & Hd & Hr). exists d. split; [right; exact Hd | exact Hr].
+    + destruct (IH (S i) true k Hk) as (d & Hd & Hr). exists d. split; [right; exact Hd | exact Hr].
+Qed.
+
+(* index-based move detection: if no row of new is MOVED or ADDED, new's rows are a prefix of old's *)
+Lemma scan_aff_prefix pop inrw : forall nsuf pre osuf,
+  NoDup (arows (pre ++ osuf)) ->
+  (forall d, In d (scan_new (pre ++ osuf) pop inrw false (cks nsuf) (List.length pre) false) -> d_op d = Affected) ->
+  exists rest, arows osuf = arows nsuf ++ rest.
+Proof.
+  induction nsuf as [|[[r m] c] ns IH]; intros pre osuf Hnd H.
+  - exists (arows osuf). reflexivity.
+  - change (cks ((r, m, c) :: ns)) with ((r, m, diff_t c) :: cks ns) in H. cbn [scan_new orb] in H.
+    destruct (afind r (pre ++ osuf) 0) as [[j so]|] eqn:Ef.
+    + destruct (Nat.eqb (List.length pre) j) eqn:Ej; cbn [negb] in H.
+      * apply Nat.eqb_eq in Ej. subst j.
+        apply afind_nth in Ef as (_ & m' & Hn). rewrite Nat.sub_0_r in Hn.
+        rewrite nth_error_app2 in Hn by lia. rewrite Nat.sub_diag in Hn.
+        destruct osuf as [|[[r' mo] so'] osuf']; [discriminate|]. cbn in Hn. injection Hn as E1 E2 E3. subst.
+        specialize (IH (pre ++ [(r, m', so)]) osuf').
+        rewrite <- app_assoc in IH. cbn [app] in IH. rewrite app_length in IH. cbn [List.length] in IH.
+        rewrite Nat.add_1_r in IH.
+        destruct (IH Hnd) as (rest & E).
+        { intros d Hd. apply H. right. exact Hd. }
+        exists rest. change (arows ((r, m', so) :: osuf')) with (r :: arows osuf').
+        change (arows ((r, m, c) :: ns)) with (r :: arows ns). cbn [app]. rewrite E. reflexivity.
+      * exfalso. specialize (H _ (or_introl eq_refl)). discriminate.
+    + exfalso. specialize (H _ (or_introl eq_refl)). discriminate.
+Qed.
+
+Lemma awf_filter p f : awf f -> awf (filter p f).
+Proof.
+  induction 1 as [|r m c f Hr Hc _ _ IH]; cbn [filter]; [constructor|].
+  destruct (p (r, m, c)); [|exact IH]. constructor; [|exact Hc|exact IH].
+  intro Hin. apply Hr. eapply arows_filter_incl. exact Hin.
+Qed.
+
+Lemma ordered_of_rewrite f : ordered_rows_a (filter (inL DRewrite) f) = [].
+Proof.
+  unfold ordered_rows_a. induction f as [|k f IH]; [reflexivity|]. cbn [filter].
+  destruct (inL DRewrite k) eqn:E; [|exact IH]. cbn [filter].
+  unfold inL in E. apply dlogic_eqb_eq in E. rewrite E. cbn [dlogic_eqb]. exact IH.
+Qed.
+
+Lemma rewrite_of_rewrite f : rewrite_rows_a (filter (inL DRewrite) f) = arows (filter (inL DRewrite) f).
+Proof.
+  unfold rewrite_rows_a, rewrite_group, arows. f_equal.
+  induction f as [|k f IH]; [reflexivity|]. cbn [filter].
+  destruct (inL DRewrite k) eqn:E; [|exact IH]. cbn [filter].
+  change (dlogic_eqb (mi_dlogic (ami k)) DRewrite) with (inL DRewrite k). rewrite E, IH. reflexivity.
+Qed.
+
+Definition AA (t : atree) : Prop :=
+  forall ao pop inrw, awf ao -> awf (akids t) -> compat ao (akids t) ->
+    all_affected (diff_t t ao pop inrw) = true -> same_f ao (akids t) = true.
+
+Section SameLevel.
+  Variables (ao nk : aforest).
+  Hypothesis Hwo : awf ao.
+  Hypothesis Hwn : awf nk.
+  Hypothesis Hc : compat ao nk.
+  Hypothesis IHA : Forall (fun k => AA (asub k)) nk.
+
+  Let NDo := awf_NoDup ao Hwo.
+  Let NDn := awf_NoDup nk Hwn.
+
+  (* what an all-AFFECTED group says about the rows of one diff logic *)
+  Definition gsame (L : dlogic) : Prop :=
+    (forall k, In k (filter (inL L) ao) -> In (arow k) (arows (filter (inL L) nk))) /\
+    (forall k, In k (filter (inL L) nk) -> In (arow k) (arows (filter (inL L) ao))) /\
+    (L <> DDefault -> arows (filter (inL L) ao) = arows (filter (inL L) nk)) /\
+    (forall r m c mo so, In (r, m, c) (filter (inL L) nk) -> In (r, mo, so) (filter (inL L) ao) ->
+        mo = m /\ same_f (akids so) (akids c) = true).
+
+  Lemma base_gsame L pop inrw' mta : (L <> DDefault -> mta = false) ->
+    all_affected (base_diff (filter (inL L) ao) pop inrw' mta (cks (filter (inL L) nk))) = true -> gsame L.
+  Proof.
+    intros Hmta Hall.
+    set (og := filter (inL L) ao) in *. set (ng := filter (inL L) nk) in *.
+    assert (NDog : NoDup (arows og)) by (apply NoDup_arows_filter; exact NDo).
+    destruct (base_diff_all_affected _ _ _ _ _ Hall) as [Ha Hb].
+    assert (Hop : forall d, In d (base_diff og pop inrw' mta (cks ng)) -> all_affected_n d = true).
+    { apply forallb_forall. exact Hall. }
+    unfold gsame. split; [exact Ha|]. split; [exact Hb|]. split.
+    - intros HL. rewrite (Hmta HL) in *.
+      destruct (scan_aff_prefix pop inrw' ng [] og NDog) as (rest & E).
+      { intros d Hd. cbn [List.length app] in Hd.
+        assert (Hin : In d (base_diff og pop inrw' false (cks ng))).
+        { eapply Permutation_in; [apply Permutation_sym, base_diff_perm|]. apply in_or_app. left. exact Hd. }
+        apply Hop in Hin. destruct d as [o r m kk]. cbn in Hin. apply andb_true_iff in Hin as [Hin _].
+        apply op_eqb_eq in Hin. exact Hin. }
+      destruct rest as [|x rest]; [rewrite app_nil_r in E; exact E|]. exfalso.
+      assert (Hx : In x (arows og)) by (rewrite E; apply in_or_app; right; left; reflexivity).
+      unfold arows in Hx. apply in_map_iff in Hx as (k & Ek & Hk). apply Ha in Hk. rewrite Ek in Hk.
+      rewrite E in NDog. apply NoDup_remove_2 in NDog. apply NDog. apply in_or_app. left. exact Hk.
+    - intros r m c mo so Hk Hko.
+      assert (Hknk : In (r, m, c) nk) by (apply filter_In in Hk as [Hk _]; exact Hk).
+      assert (Hkao : In (r, mo, so) ao) by (apply filter_In in Hko as [Hko _]; exact Hko).
+      assert (Elo : alookup r ao = Some (mo, so)) by (apply alookup_In; assumption).
+      destruct (compat_In ao nk Hc r m c mo so Hknk Elo) as [Em Hcs]. split; [exact Em|].
+      destruct (scan_In_conv og pop inrw' mta ng 0 false (r, m, c) Hk) as (d & Hd & Hrel).
+      assert (Hin : In d (base_diff og pop inrw' mta (cks ng))).
+      { eapply Permutation_in; [apply Permutation_sym, base_diff_perm|]. apply in_or_app. left. exact Hd. }
+      apply Hop in Hin.
+      unfold scan_rel, arow, ami, asub in Hrel. cbn [fst snd] in Hrel.
+      rewrite (alookup_In og r mo so NDog Hko) in Hrel. destruct Hrel as (o & _ & Ed). subst d.
+      cbn [all_affected_n] in Hin. apply andb_true_iff in Hin as [Ho Hkids]. apply op_eqb_eq in Ho. subst o.
+      rewrite Forall_forall in IHA. apply (IHA (r, m, c) Hknk (akids so) Affected inrw').
+      + eapply awf_In; [exact Hwo | exact Hkao].
+      + eapply awf_In; [exact Hwn | exact Hknk].
+      + exact Hcs.
+      + exact Hkids.
+  Qed.
+
+  Lemma run_gsame L pop inrw :
+    all_affected (run_dlogic L (filter (inL L) ao) (cks (filter (inL L) nk)) pop inrw) = true -> gsame L.
+  Proof.
+    unfold run_dlogic. destruct L.
+    - apply base_gsame. intros H. congruence.
+    - apply base_gsame. reflexivity.
+    - destruct inrw; [apply base_gsame; reflexivity|].
+      destruct (all_affected (base_diff _ pop true false _)) eqn:E.
+      + intros _. eapply base_gsame; [|exact E]. reflexivity.
+      + intros H. apply aff_to_moved_all_affected in H. rewrite H in E. discriminate.
+  Qed.
+
+  Lemma gsame_empty L : filter (inL L) ao = [] -> filter (inL L) nk = [] -> gsame L.
+  Proof.
+    intros E1 E2. unfold gsame. rewrite E1, E2.
+    split; [intros k []|]. split; [intros k []|]. split; [reflexivity|]. intros r m c mo so [].
+  Qed.
+
+  Lemma level_gsame pop inrw : all_affected (diff_level ao (cks nk) pop inrw) = true -> forall L, gsame L.
+  Proof.
+    rewrite diff_level_unfold. set (keys := uniq_dl _ []). intros H L.
+    destruct (existsb (dlogic_eqb L) keys) eqn:EL.
+    - apply existsb_dl_In in EL. apply (run_gsame L pop inrw).
+      unfold all_affected in *. apply forallb_forall. intros d Hd.
+      rewrite forallb_forall in H. apply H. apply in_flat_map. exists L. split; [exact EL | exact Hd].
+    - assert (Hn : ~ In L keys) by (intro Hin; apply existsb_dl_In in Hin; congruence).
+      apply gsame_empty.
+      + destruct (filter (inL L) ao) as [|k l] eqn:E; [reflexivity|]. exfalso. apply Hn.
+        assert (Hk : In k (filter (inL L) ao)) by (rewrite E; left; reflexivity).
+        apply filter_In in Hk as [Hk HL]. unfold inL in HL. apply dlogic_eqb_eq in HL. subst L.
+        apply uniq_dl_In0. apply in_or_app. left. apply (in_map (fun k => mi_dlogic (ami k))). exact Hk.
+      + destruct (filter (inL L) nk) as [|k l] eqn:E; [reflexivity|]. exfalso. apply Hn.
+        assert (Hk : In k (filter (inL L) nk)) by (rewrite E; left; reflexivity).
+        apply filter_In in Hk as [Hk HL]. unfold inL in HL. apply dlogic_eqb_eq in HL. subst L.
+        apply uniq_dl_In0. apply in_or_app. right. apply (in_map (fun k => mi_dlogic (ami k))). exact Hk.
+  Qed.
+
+  Lemma gsame_all_same : (forall L, gsame L) -> same_f ao nk = true.
+  Proof.
+    intros G. apply same_f_intro.
+    - exact NDn.
+    - destruct (G DOrdered) as (_ & _ & G3 & _). apply G3. discriminate.
+    - destruct (G DRewrite) as (_ & _ & G3 & _). apply G3. discriminate.
+    - intros k Hk. destruct (G (mi_dlogic (ami k))) as (_ & G2 & _).
+      eapply arows_filter_incl. apply G2. apply filter_In. split; [exact Hk|]. unfold inL. apply dlogic_eqb_refl.
+    - intros r m s Hk. destruct (G (mi_dlogic m)) as (G1 & _ & _ & G4).
+      assert (HkL : In (r, m, s) (filter (inL (mi_dlogic m)) ao)).
+      { apply filter_In. split; [exact Hk|]. unfold inL, ami. cbn [fst snd]. apply dlogic_eqb_refl. }
+      pose proof (G1 _ HkL) as Hr. unfold arow in Hr. cbn [fst] in Hr.
+      unfold arows in Hr. apply in_map_iff in Hr as ([[r' m'] s'] & Er & Hk').
+      unfold arow in Er. cbn [fst] in Er. subst r'.
+      destruct (G4 r m' s' m s Hk' HkL) as [Em Hs]. subst m'.
+      exists s'. split; [|exact Hs]. apply filter_In in Hk' as [Hk' _]. exact Hk'.
+  Qed.
+
+  Lemma gsame_rw : gsame DRewrite -> rw_unchanged ao nk = true.
+  Proof.
+    intros (G1 & G2 & G3 & G4). unfold rw_unchanged.
+    change (rewrite_group ao) with (filter (inL DRewrite) ao).
+    change (rewrite_group nk) with (filter (inL DRewrite) nk).
+    apply same_f_intro.
+    - apply NoDup_arows_filter. exact NDn.
+    - rewrite !ordered_of_rewrite. reflexivity.
+    - rewrite !rewrite_of_rewrite. apply G3. discriminate.
+    - exact G2.
+    - intros r m s Hk. pose proof (G1 _ Hk) as Hr. unfold arow in Hr. cbn [fst] in Hr.
+      unfold arows in Hr. apply in_map_iff in Hr as ([[r' m'] s'] & Er & Hk').
+      unfold arow in Er. cbn [fst] in Er. subst r'.
+      destruct (G4 r m' s' m s Hk' Hk) as [Em Hs]. subst m'.
+      exists s'. split; [exact Hk' | exact Hs].
+  Qed.
+End SameLevel.
+
+Theorem diff_t_all_affected_same : forall t, AA t.
+Proof.
+  induction t as [nk IH] using atree_ind2. unfold AA. cbn [akids].
+  intros ao pop inrw Hwo Hwn Hc H. rewrite diff_t_unfold in H.
+  apply (gsame_all_same ao nk Hwn). eapply level_gsame; eassumption.
+Qed.
+
 (* ---------- one level ---------- *)
 Definition pop_ok (pop : op) (ao : aforest) : Prop := pop = Affected \/ pop = Moved \/ ao = [].
 
@@ -448,9 +698,9 @@ Section Level.
     NoDup (map d_row G) /\
     (forall d, In d G -> In (d_row d) (arows (filter (inL L) ao)) \/ In (d_row d) (arows (filter (inL L) nk))) /\
     (forall k, In k (filter (inL L) ao) ->
-               In (arow k) (map d_row G) \/ (L = DRewrite /\ In (arow k) (arows nk))) /\
+               In (arow k) (map d_row G) \/ (L = DRewrite /\ rw_unchanged ao nk = true)) /\
     (forall k, In k (filter (inL L) nk) ->
-               In (arow k) (map d_row G) \/ (L = DRewrite /\ In (arow k) (arows ao))).
+               In (arow k) (map d_row G) \/ (L = DRewrite /\ rw_unchanged ao nk = true)).
 
   Lemma base_group_ok L inrw' mta :
     group_ok L (base_diff (filter (inL L) ao) pop inrw' mta (cks (filter (inL L) nk))).
@@ -476,13 +726,16 @@ Section Level.
     destruct inrw; [apply base_group_ok|].
     pose proof (base_group_ok DRewrite true false) as (G1 & G2 & G3 & G4 & G5).
     destruct (all_affected _) eqn:Eall.
-    - apply base_diff_all_affected in Eall as [Ha Hb].
+    - assert (Hun : rw_unchanged ao nk = true).
+      { eapply gsame_rw; [exact Hwn|].
+        eapply (base_gsame ao nk Hwo Hwn Hc); [|intros _; reflexivity|exact Eall].
+        apply Forall_forall. intros k _. apply diff_t_all_affected_same. }
       unfold group_ok. repeat split.
       + intros d [].
       + constructor.
       + intros d [].
-      + intros k Hk. right. split; [reflexivity|]. eapply arows_filter_incl. apply Ha. exact Hk.
-      + intros k Hk. right. split; [reflexivity|]. eapply arows_filter_incl. apply Hb. exact Hk.
+      + intros k Hk. right. split; [reflexivity | exact Hun].
+      + intros k Hk. right. split; [reflexivity | exact Hun].
     - unfold group_ok. rewrite aff_to_moved_rows. repeat split.
       + intros d Hd. unfold aff_to_moved in Hd. apply in_map_iff in Hd as (y & Ey & Hy). subst d.
         apply lossless_aff_to_moved. apply G1. exact Hy.
